@@ -770,12 +770,19 @@ PROPS = {
                 "ticks) and answers from the model state: the judged peers the MODEL decided to drop (hash time-out, empty / stale / "
                 "malformed hash packs, forged block, failed import, nobody left to ask), head >= target, stuck. Exact times are not "
                 "compared. Not judged: the bystander, and any peer that sent a block pack that was not THE answer to a request once "
-                "block requests were out (which request such a pack meets is decided by the node's scheduler): such scenarios "
-                "(silent-hashes-terminator, silent-blocks-first/-third, origin-answers-blocks-two-answers; counter "
-                "dl-traces-hash-level-only) are replayed on the hash level only, synced=na; the other 45 (dl-traces-exact) in full. "
-                "Slack of the replay: a request naming hashes the model still has in flight elsewhere is preceded by requeue, a "
-                "request to a peer the model holds busy by an out-of-bound pack of that peer, a head probe while the model holds a run "
-                "by cancel, a disconnect by an update",
+                "block requests were out, or announced a hash again after delivering its block (which request such a pack meets / "
+                "whether the hash counts as new is decided by the node's scheduler): such scenarios (as a rule "
+                "silent-hashes-terminator, silent-blocks-first/-third, origin-answers-blocks-two-answers, "
+                "origin-answers-hashes-one-at-a-time; counter dl-traces-hash-level-only) are replayed on the hash level only, "
+                "synced=na; the others (about 44 of 49, dl-traces-exact) in full. Slack of the replay: a request naming hashes the "
+                "model still has in flight elsewhere is preceded by requeue, a request to a peer the model holds busy by an "
+                "out-of-bound pack of that peer, a head probe while the model holds a run by up to 10 ticks and then cancel, a "
+                "disconnect by an update; a hash time-out at most 10 ticks away when the trace ends is let fire (records are "
+                "written when the scripted peer's goroutine runs, up to a second late on a loaded machine); the local height of a "
+                "synchronisation is corrected to the one the node's search requests imply; WHEN the node registers a peer is not "
+                "visible on the wire, so the model is run with the registrations as recorded, as late as possible (before the node's "
+                "first action towards the peer) and 10 ticks earlier, and the observation (repeated in front of the bar for that "
+                "choice only) is accepted when one of the three runs yields it",
         "partial": "proved: reply caps (every chain, every request, no premise), totality (every message; premises on the node only: "
                    "it holds its genesis momentum and fewer than 2^64-1 momentums, both shown necessary) and size gate of the handler "
                    "MODEL; the two clauses that were false of the code (F7a, F7b) are repaired (d85e958, 99f2642) and their inputs are "
